@@ -783,6 +783,34 @@ def check_strides(prog, rep, m, entry):
             'test first) and record the cursor once per id: ' + why)
 
 
+def _is_category(ka):
+    """is this atom the category visited by the loop: the item of enumerate(unique_cats), the unique_cats component of a zip,
+    an element of unique_cats itself, or unique_cats[j]"""
+    from .sym import App, Rat
+    if not isinstance(ka, App):
+        return False
+    if ka.name in ('read', 'cell?'):
+        return ka.args[0] == 'unique_cats'
+    if ka.name != 'elem':
+        return False
+    src = ka.args[0]
+    sa = _one_atom(src) if isinstance(src, Rat) else src
+    comp = int(ka.args[2].const_value()) if len(ka.args) > 2 and isinstance(ka.args[2], Rat) and ka.args[2].is_const() else None
+    if isinstance(sa, App) and sa.name == 'iter:enumerate':
+        return comp == 2 and 'unique_cats' in repr(sa.args[0])
+    if isinstance(sa, App) and sa.name == 'iter:zip':
+        return comp is not None and 1 <= comp <= len(sa.args) and 'unique_cats' in repr(sa.args[comp - 1])
+    return comp is None and 'unique_cats' in repr(src)
+
+
+def _one_atom(r):
+    if r.d.is_const() and len(r.n.t) == 1:
+        (mm, cc), = r.n.t.items()
+        if len(mm) == 1 and mm[0][1] == 1 and cc == r.d.const_value():
+            return mm[0][0]
+    return None
+
+
 def _ite_leaf_values(r):
     from .sym import App, Rat
     a = None
@@ -849,11 +877,21 @@ def nan_transparent_sum(prog, m, body, p):
         h = m.funcs[body.func.id]
         env = {}
         ret = None
+        masked = {}
         for s in h.node.body:
             if isinstance(s, ast.Assign) and isinstance(s.targets[0], ast.Name):
                 env[s.targets[0].id] = inline(s.value, env)
+            elif isinstance(s, ast.Assign) and isinstance(s.targets[0], ast.Subscript) and isinstance(s.targets[0].value, ast.Name) and \
+                    norm(s.value) in ('np.nan', 'numpy.nan', "float('nan')"):
+                # totals[all_nan] = nan: the same selection as np.where(all_nan, nan, totals)
+                masked[s.targets[0].value.id] = inline(s.targets[0].slice, env)
             elif isinstance(s, ast.Return):
-                ret = inline(s.value, env)
+                if isinstance(s.value, ast.Name) and s.value.id in masked and s.value.id in env:
+                    ret = ast.Call(func=ast.Attribute(value=ast.Name(id='np', ctx=ast.Load()), attr='where', ctx=ast.Load()),
+                                   args=[masked[s.value.id], ast.Attribute(value=ast.Name(id='np', ctx=ast.Load()), attr='nan', ctx=ast.Load()),
+                                         env[s.value.id]], keywords=[])
+                else:
+                    ret = inline(s.value, env)
         if ret is not None:
             return nan_transparent_sum(prog, m, ret, h.params[0])
     return None
@@ -1164,44 +1202,49 @@ def check_crosstab_keys(prog, rep, m, entry):
     bnames = [t.id for s_ in f.own_nodes() if isinstance(s_, ast.Assign) and isinstance(s_.value, ast.Call) and
               short(s_.value) == '_strides' and len(s_.value.args) == 2 and norm(s_.value.args[1]) == 'unique_cats'
               for t in s_.targets if isinstance(t, ast.Name)]
-    for lp in [x for x in f.node.body if isinstance(x, ast.For)]:
-        # category and its break are paired by position: enumerate(unique_cats) + breaks[j], or zip(unique_cats, breaks)
-        tv = brk = None
-        it = lp.iter
-        if isinstance(it, ast.Call) and norm(it.func) == 'enumerate' and len(it.args) == 1 and norm(it.args[0]) == 'unique_cats' \
-                and isinstance(lp.target, ast.Tuple) and len(lp.target.elts) == 2:
-            jv, tv = norm(lp.target.elts[0]), norm(lp.target.elts[1])
-            brk = {'%s[%s]' % (b_, jv) for b_ in bnames}
-        elif isinstance(it, ast.Call) and norm(it.func) == 'zip' and len(it.args) == 2 and isinstance(lp.target, ast.Tuple) \
-                and len(lp.target.elts) == 2 and sorted(norm(a) for a in it.args) == sorted(['unique_cats'] + bnames[:1]):
-            pos = [norm(a) for a in it.args].index('unique_cats')
-            tv = norm(lp.target.elts[pos])
-            brk = {norm(lp.target.elts[1 - pos])}
-        okl = tv is not None and bool(brk)
+    # the per-category counts on the interpreted function: for every category j the count stored under that category
+    # is break j minus the running previous break (0 before the first category), whatever the loop looks like
+    from .kai import interpret
+    from .sym import App, Rat, Sym, walk_atoms
+    from .kutil import show as kshow
+    k = interpret(prog, m.funcs.get('_single_zone_crosstab_2d'), strict=False)
+    apps = [ev[1] for ev in k.events if ev[0] == 'append' and ev[1][4]]
+    okall = bool(apps)
+    for tgt, vals, guards, node, loops in apps:
+        L = loops[0]
+        key = tgt[1] if tgt else None
+        ka = _one_atom(key) if isinstance(key, Rat) else None
+        v = vals[0] if vals and isinstance(vals[0], Rat) else None
+        okk = _is_category(ka)
+        okc = False
+        if v is not None:
+            phis = [(n_, ph, end) for n_, (ph, end) in getattr(L, 'carried', {}).items() if ph in [Rat.atom(a) for a in v.atoms()]]
+            if len(phis) == 1:
+                n_, ph, end = phis[0]
+                brk = v + ph
+                ba = _one_atom(brk)
+                # the break of this category: element j of the stride routine applied to (sorted valid values, ALL categories)
+                def strides_of_sorted(x):
+                    return 'call:_strides(' in repr(x) and 'unique_cats' in repr(x) and 'numpy.sort' in repr(x)
+                okb = isinstance(ba, App) and ba.name in ('getitem', 'read', 'cell?') and strides_of_sorted(ba.args[0])
+                if not okb and isinstance(ba, App) and ba.name == 'elem' and len(ba.args) > 2:
+                    # zip(unique_cats, breaks): the break paired with the category by position
+                    za = _one_atom(ba.args[0]) if isinstance(ba.args[0], Rat) else ba.args[0]
+                    comp = int(ba.args[2].const_value()) if isinstance(ba.args[2], Rat) and ba.args[2].is_const() else None
+                    okb = isinstance(za, App) and za.name == 'iter:zip' and comp is not None and 1 <= comp <= len(za.args) and \
+                        strides_of_sorted(za.args[comp - 1]) and isinstance(ka, App) and ka.name == 'elem' and ka.args[0] == ba.args[0] and \
+                        ka.args[1] == ba.args[1]
+                okc = okb and end == brk and L.pre.get(n_) == Rat.const(0)
+        sel = any('in(' in repr(g_) and 'cat_ids' in repr(g_) for g_ in guards)
+        okall = okall and okk and okc and sel
         n += 1
-        rep.add('X-key', f, entry, 'for %s in %s' % (norm(lp.target), norm(lp.iter)), lp.lineno, okl,
-                'the category breaks are computed for unique_cats: break j belongs to unique_cats[j], so the loop '
-                'must pair ALL categories with the breaks by position (enumerate + breaks[j], or zip)')
-        if not okl:
-            continue
-        env = {}
-        for s_ in ast.walk(lp):
-            if isinstance(s_, ast.Assign) and isinstance(s_.targets[0], ast.Name) and s_.targets[0].id not in ('cat_start',):
-                env[s_.targets[0].id] = s_.value
-        for c in calls(lp):
-            if short(c) == 'append':
-                key = norm(c.func.value)
-                okk = key.endswith('[%s]' % tv)
-                v = c.args[0] if c.args else None
-                if isinstance(v, ast.Name) and v.id in env:
-                    v = env[v.id]
-                if isinstance(v, ast.BinOp) and isinstance(v.left, ast.Name) and v.left.id in env:
-                    v = ast.BinOp(left=env[v.left.id], op=v.op, right=v.right)      # `end = breaks[j]` named first
-                okc = isinstance(v, ast.BinOp) and isinstance(v.op, ast.Sub) and norm(v.left) in brk and isinstance(v.right, ast.Name)
-                n += 1
-                rep.add('X-key', f, entry, norm(c), c.lineno, okk and okc,
-                        'the count of a category is its own break minus the previous break, stored under that category '
-                        '(key ok: %s, count ok: %s)' % (okk, okc))
+        rep.add('X-key', f, entry, 'count stored per category: %s' % (kshow(v, 90) if v is not None else None), node.lineno, okk and okc and sel,
+                'the count of a category is its own break minus the previous break (the running break starts at 0 and advances '
+                'to the category\'s break for EVERY category), stored under that category, for the selected categories '
+                '(key ok: %s, count ok: %s, selection ok: %s)' % (okk, okc, sel))
+    if not apps:
+        n += 1
+        rep.add('X-key', f, entry, 'count stored per category', f.node.lineno, None, 'no append inside the category loop found')
     g = _view(prog, m.funcs.get('_single_zone_crosstab_3d'))
     if g is not None:
         for lp in [x for x in g.node.body if isinstance(x, ast.For)]:
